@@ -36,8 +36,20 @@ impl<'a> RegExp<'a> {
         }
         Self::sort(test_cases);
         let grapheme_clusters = Self::grapheme_clusters(test_cases, config);
+        #[cfg(grex_verif)]
+        {
+            crate::verif::record(crate::verif::Event::Sorted(test_cases.clone()));
+            crate::verif::record(crate::verif::Event::Clusters(
+                grapheme_clusters
+                    .iter()
+                    .map(|c| c.graphemes().iter().map(crate::verif::g).collect())
+                    .collect(),
+            ));
+        }
         let mut dfa = Dfa::from(&grapheme_clusters, true, config);
         let mut ast = Expression::from(dfa, config);
+        #[cfg(grex_verif)]
+        crate::verif::record(crate::verif::Event::Expr(ast.to_string()));
 
         if config.is_start_anchor_disabled && config.is_end_anchor_disabled {
             let mut regex = Self::convert_expr_to_regex(&ast, config);
@@ -50,11 +62,15 @@ impl<'a> RegExp<'a> {
             if !Self::is_each_test_case_matched_after_rotating_alternations(
                 &regex, &mut ast, test_cases,
             ) {
+                #[cfg(grex_verif)]
+                crate::verif::record(crate::verif::Event::Branch("unminimized"));
                 dfa = Dfa::from(&grapheme_clusters, false, config);
                 ast = Expression::from(dfa, config);
                 regex = Self::convert_expr_to_regex(&ast, config);
 
                 if !Self::regex_matches_all_test_cases(&regex, test_cases) {
+                    #[cfg(grex_verif)]
+                    crate::verif::record(crate::verif::Event::Branch("alternation"));
                     let mut exprs = vec![];
                     for cluster in grapheme_clusters {
                         let literal = Expression::new_literal(cluster, config);
@@ -64,6 +80,9 @@ impl<'a> RegExp<'a> {
                 }
             }
         }
+
+        #[cfg(grex_verif)]
+        crate::verif::record(crate::verif::Event::FinalExpr(ast.to_string()));
 
         Self { ast, config }
     }
